@@ -101,10 +101,6 @@ inductive Obs where
   | parseError
   deriving DecidableEq, Repr
 
-def splitOn32 : Bytes → Bytes → List Bytes
-  | [], cur => [cur.reverse]
-  | c :: r, cur => if c = 32 then cur.reverse :: splitOn32 r [] else splitOn32 r (c :: cur)
-
 /-- the dictionary `validateFields` consults for tag `t` -/
 def dictFor (app : VDict) (tr : Option VDict) (mt : Bytes) (t : Nat) : VDict :=
   match tr with
